@@ -259,9 +259,11 @@ def run(ctx, res):
         sup = D.impl_item(FCI_BUILDER, adt, "supports_feedback_type")
         fm = D.impl_item(FCI_BUILDER, adt, "format")
         for s, k, r in I.inline(sup, None, State(), [b]):
-            good = isinstance(r, StructV) and isinstance(r.fields.get("transport"), BoolV) and \
-                r.fields["transport"].f == (("true",) if kind == "transport" else ("false",)) and \
-                r.fields["payload"].f == (("true",) if kind == "payload" else ("false",))
+            from .. import roles
+            fk = roles.fci_kind_fields(F)
+            good = isinstance(r, StructV) and isinstance(r.fields.get(fk["transport"]), BoolV) and \
+                r.fields[fk["transport"]].f == (("true",) if kind == "transport" else ("false",)) and \
+                r.fields[fk["payload"]].f == (("true",) if kind == "payload" else ("false",))
             res.ob(good, "fci-kind", sup, f"{nm} supports exactly {kind} feedback (RFC 4585/5104)", detail=repr(r)[:200])
         for s, k, r in I.inline(fm, None, State(), [b]):
             res.ob(isinstance(r, IntV) and r.l == lin(fmt), "fci-kind", fm, f"{nm}::format() == {fmt}", detail=repr(r))
